@@ -219,7 +219,7 @@ def part_wrap(ctx):
     rng = ctx.rng
     names = all_body_class_names()
     per_class = ctx.scale(8, 50)
-    flip_budget = ctx.scale(50, 300)
+    flip_budget = ctx.scale(50, 2000)
     flips_done = 0
     idx = 0
     for rnd in range(per_class):
@@ -407,7 +407,7 @@ def part_handshake(ctx):
 def part_timer_notify(ctx):
     rng = ctx.rng
     loop = new_loop()
-    n_cases = ctx.scale(40, 400)
+    n_cases = ctx.scale(40, 4000)
 
     async def main():
         for i in range(n_cases):
